@@ -7,6 +7,7 @@ import AM.Model.Pipe
 import AM.Model.DirReader
 import AM.Model.DirLoop
 import AM.Model.Health
+import AM.Proofs.C18Ring
 import AM.Model.Conc
 import AM.Spec.AuditProc
 import AM.Model.Workers
@@ -245,6 +246,18 @@ def healthLine (f : List String) : String :=
         match ofHex (o.drop 6).toString with
         | some c => (Health.apply m (.ready c), out, okp)
         | none => (m, out, false)
+      else if o.startsWith "ring:" then
+        -- a token ring on a fresh Health, probed by free-running Go routines: the number of "ready" answers. Every state
+        -- of the ring has a pending component (`C18R.ring_never_ready`; evaluated here for this ring as well), and a probe
+        -- sees one state (`C18.snapshot`): 0
+        match (o.splitOn ":") with
+        | [_, n, _, _] =>
+          match n.toNat? with
+          | some nn =>
+            let names := (List.range nn).map fun i => s!"r{i}".toList
+            (m, out ++ [if C18R.allPending [] (C18R.ringLog names (3 * nn)) then "G:0" else "G:some"], okp)
+          | none => (m, out, false)
+        | _ => (m, out, false)
       else if o == "get" then (m, out ++ [Health.render (Health.respond m)], okp)
       else if o == "isready" then (m, out ++ [s!"R:{Health.isReady m}"], okp)
       else if o == "wait" then
